@@ -200,4 +200,3 @@ pub mod c33;
 pub mod c34;
 pub mod c34tx;
 pub mod c28;
-pub mod c25;
